@@ -40,6 +40,7 @@ package sonic
 //@   ensures [room] n <= cap(b.data) - b.wi
 //@   ensures [content] forall j :: 0 <= j && j < b.wi ==> b.data[j] == old(b.data[j])
 //@   ensures [stable] n <= old(cap(b.data) - b.wi) ==> ptr(b.data) == old(ptr(b.data)) && cap(b.data) == old(cap(b.data))
+//@   ensures [where] (ptr(b.data) == old(ptr(b.data)) && cap(b.data) == old(cap(b.data))) || fresh(b.data)
 //@   modifies b.data
 
 //@ func (*ByteBuffer).Commit
@@ -138,6 +139,7 @@ package sonic
 
 //@ func (*ByteBuffer).Write
 //@   prop C09
+//@   ensures [where] (ptr(b.data) == old(ptr(b.data)) && cap(b.data) == old(cap(b.data))) || fresh(b.data)
 //@   requires bbInv(b)
 //@   requires cap(b.data) <= 1<<46 && len(bb) <= 1<<46
 //@   ensures [inv] bbInv(b) && result0 == len(bb) && result1 == nil
@@ -148,6 +150,7 @@ package sonic
 
 //@ func (*ByteBuffer).WriteByte
 //@   prop C09
+//@   ensures [where] (ptr(b.data) == old(ptr(b.data)) && cap(b.data) == old(cap(b.data))) || fresh(b.data)
 //@   requires bbInv(b)
 //@   requires cap(b.data) <= 1<<46
 //@   ensures [inv] bbInv(b) && result == nil
@@ -158,6 +161,7 @@ package sonic
 
 //@ func (*ByteBuffer).WriteString
 //@   prop C09
+//@   ensures [where] (ptr(b.data) == old(ptr(b.data)) && cap(b.data) == old(cap(b.data))) || fresh(b.data)
 //@   requires bbInv(b)
 //@   requires cap(b.data) <= 1<<46 && len(s) <= 1<<46
 //@   ensures [inv] bbInv(b) && result0 == len(s) && result1 == nil
